@@ -58,7 +58,10 @@ class TimestampType(IntType, prim='timestamp'):  # type: ignore
         if mode in ['optimized', 'legacy_optimized']:
             return {'int': str(self.value)}
         elif mode == 'readable':
-            return {'string': format_timestamp(self.value)}
+            # NOTE: only years 1000..9999 have an RFC3339 rendering that can be read back, other instants stay integers
+            if -30610224000 <= self.value <= 253402300799:
+                return {'string': format_timestamp(self.value)}
+            return {'int': str(self.value)}
         else:
             raise AssertionError(f'unsupported mode {mode}')
 
